@@ -200,7 +200,7 @@ CHECKS["C02"] = {
     "tests": [T("TestC02", 150, 2500)],
     "level": "exploration",
     "technique": "property-based testing (rapid): generated fault sequences (link cuts/heals, dropped/duplicated/reordered head announcements, restarts) interleaved with writes on 2-4 replicas, followed by the reconnect phase of the statement; wedge oracle (system at rest by hook counters, a write still missing)",
-    "rule": "rapid draws a store type, 2-4 writer replicas of one database (replication on; every topic message and direct-channel payload is held by the harness) and 2-20 (quick) / 2-30 (thorough) actions: write(i), cut(i,j), heal(i,j), deliver / drop / duplicate held message k (any k => reordering), restart(i) (instance closed, recreated on the same disk, store reopened and Load(-1)ed). Final phase: delivery becomes automatic, every pair is reconnected (an up link is cut and healed so that both sides see the other join the topic), every held message is delivered, no further fault. Oracle: every replica ends up holding exactly the acknowledged writes (reported only when the system is at rest and a write is still missing), Values() == (time,id) order, and all views are equal. non-trivial = before the final phase some announcement was dropped, or a write happened with a link down, or a replica restarted after a write; distinct = SHA-1 of the case JSON",
+    "rule": "rapid draws a store type, 2-4 writer replicas of one database (replication on; every topic message and direct-channel payload is held by the harness) and 2-20 (quick) / 2-30 (thorough) actions: write(i), cut(i,j), heal(i,j), deliver / drop / duplicate held message k (any k => reordering), restart(i) (instance closed, recreated on the same disk, store reopened and Load(-1)ed), gate(i) (every block fetch of replica i parks from now on) and release(i,k) (one parked fetch proceeds), so that cuts and restarts can hit a replication in mid-fetch. Final phase: delivery becomes automatic, every pair is reconnected (an up link is cut and healed so that both sides see the other join the topic), every held message is delivered, every gate is opened, no further fault. Oracle: every replica ends up holding exactly the acknowledged writes (reported only when the system is at rest and a write is still missing), Values() == (time,id) order, and all views are equal. non-trivial = before the final phase some announcement was dropped, or a write happened with a link down, or a replica restarted after a write; distinct = SHA-1 of the case JSON",
     "level_text": "Bounded safety form of a liveness property: 'not wedged after the final phase'. Generated fault sequences; no exhaustiveness claimed.",
     "level_note": "A replica that would only converge after unbounded time reads as inconclusive, never as a violation. Blocks held by a connected peer are fetchable (simulated block exchange); the simulated pubsub emits joins on heal as real pubsub polling does.",
     "design_ref": "5/C02",
